@@ -146,6 +146,9 @@ def build_image(rng, d, bits=None, mut=None):
         rs2 = max(0, off + m.get("keep", 44))
         body = body[:rs2]
         rs, vs = rs2, max(rs2, off + size) if m.get("vtail", 1) else rs2
+    if "vsize" in m:
+        vs = {"half": off + size // 2, "minus1": off + size - 1}.get(m["vsize"], m["vsize"] if m["vsize"] in (0, 1) else off + m["vsize"] if isinstance(m["vsize"], int) else 0)
+        pe.size_of_image = 0x2000 + (max(rs, 1) + 0xFFF) // 0x1000 * 0x1000
     edata = Section(b".edata", va=0x2000, vs=vs, prd=0x400, rs=rs, data=bytes(body))
     pe.sections = [text, edata]
     pe.dirs = [(0, 0)] * 16
@@ -176,7 +179,7 @@ def mutations(rng, d):
     """one random corruption: header fields (`d.over`) or placement (`mut`)"""
     n, m = len(d.fns), len(d.names)
     mut = {}
-    r = rng.randrange(22)
+    r = rng.randrange(24)
     if r == 0:
         d.over["afn"] = 0
     elif r == 1:
@@ -227,6 +230,10 @@ def mutations(rng, d):
         d.over["aor"] = rng.choice([1, 0x2001, 0x2FFE, 0x3000, U32, 0x100, 0x1000])
     elif r == 21:
         mut["size_of_image"] = rng.choice([0x2000, 0x2004, 0x1000, 0x3000, 0x200])
+    elif r in (22, 23):
+        # VirtualSize smaller than the raw data that holds the tables (a file view resolves through
+        # max(VirtualSize, SizeOfRawData); what a loader maps of it is another matter)
+        mut["vsize"] = rng.choice([0, 0, 1, 40, "half", "minus1"])
     return mut
 
 
@@ -544,4 +551,34 @@ def gen_exports_corpus(rng, tier):
             case.append("export %s symfwd index %d" % (k, i))
             case.append("export wf symfwd ordinal %d" % i)
         cases.append(case)
+    return cases
+
+
+def gen_exports_nulltables(rng, tier):
+    """Null sub-tables next to absurd declared counts (a null table is an EMPTY table whatever the header's count
+    says), through the format-specific iterators and the wrapper twins: the number of items an iterator yields
+    is bounded by the tables that exist, never by the declared count."""
+    from .gen_img import img_line
+    cases = []
+    F = [0x1010, 0, ("fwd", b"NTDLL.RtlFree"), 0x1020]
+    names = [(b"Alpha", 0), (b"Beta", 2), (b"Gamma", 3)]
+    overs = [{"anm": 0, "aor": 0, "nnm": U32}, {"anm": 0, "aor": 0, "nnm": 0x10000}, {"afn": 0, "nfn": U32},
+             {"afn": 0, "anm": 0, "aor": 0, "nfn": 0x40000000, "nnm": U32}, {"anm": 0, "nnm": 0x80000000}, {"aor": 0, "nnm": U32}]
+    for bits in (32, 64):
+        for over in overs if tier != "quick" else rng.sample(overs, 4):
+            d = ExpDir()
+            d.fns, d.names, d.base, d.dll = list(F), list(names), 1, b"demo.dll"
+            d.over = dict(over)
+            d.mode = "explicit"
+            b = build_image(rng, d, bits=bits, mut={})
+            for kind, buf in (("f", b.data), ("v", b.view)):
+                if buf is None:
+                    continue
+                k, w = "%s%d" % (kind, bits), "w" + kind
+                case = [img_line(rng, buf), "from_bytes " + k, "from_bytes " + w]
+                for kk, pre in ((k, ""), (w, "w")):
+                    for so in ("exp_indices", "exp_names", "exports"):
+                        for h in ("count", "hint,next,hint,next,len", "nth:0xfffe,next,count"):
+                            case.append("iter %s %s%s %s" % (kk, pre, so, h))
+                cases.append(case)
     return cases
